@@ -16,6 +16,7 @@ import sys
 SPECS = [
     ("scmMaxFdsOut", "command/src/scm_socket.rs", r"pub const MAX_FDS_OUT: usize = ([^;]+);", "fds per SCM_RIGHTS message"),
     ("scmMaxBytesOut", "command/src/scm_socket.rs", r"pub const MAX_BYTES_OUT: usize = ([^;]+);", "manifest receive buffer"),
+    ("scmMaxAddressLen", "command/src/scm_socket.rs", r"const MAX_ADDRESS_LEN: usize = ([^;]+);", "longest textual SocketAddr the manifest buffer is sized for"),
     ("sessAcceptBase", "lib/src/server.rs", r"let threshold = (\d+) \+ \d+ \* self\.max_connections;", "accept_slab_threshold: base"),
     ("sessAcceptFactor", "lib/src/server.rs", r"let threshold = \d+ \+ (\d+) \* self\.max_connections;", "accept_slab_threshold: factor"),
     ("sessResumeNum", "lib/src/server.rs", r"self\.nb_connections < \(?self\.max_connections \* (\d+) / \d+", "decr hysteresis numerator"),
